@@ -51,9 +51,19 @@ pub fn resolve_res(
     let res = defs.res_directives.get_mut(item_ref);
     let prev_value = res.reserve_size;
     
-    res.reserve_size =
-        <u32 as TryInto<usize>>::try_into(value).unwrap() *
-        bank.addr_unit;
+    let Some(reserve_size) =
+        <u32 as TryInto<usize>>::try_into(value).unwrap()
+            .checked_mul(bank.addr_unit)
+    else
+    {
+        report.error_span(
+            "value is out of supported range",
+            ast_res.expr.span());
+
+        return Err(());
+    };
+
+    res.reserve_size = reserve_size;
 
 
     if res.reserve_size != prev_value
